@@ -1148,6 +1148,13 @@ func runR12_4(c *Ctx, r *R) {
 			}
 			bad := ""
 			reads, other := structFieldReads(entry)
+			// peekType(entryList): ok == true already means type_ == entryList
+			typedOK := false
+			if _, ti, isTyped := typedAccessor(cv.Call.StaticCallee()); isTyped && ti < len(cv.Call.Args) {
+				if _, isK := constInt(cv.Call.Args[ti]); isK {
+					typedOK = true
+				}
+			}
 			var typeReads []ssa.Value
 			for _, rd := range reads {
 				if rd.Name == "type_" {
@@ -1190,7 +1197,7 @@ func runR12_4(c *Ctx, r *R) {
 				}
 				if !hasOK {
 					bad = fmt.Sprintf("entry used at %s without ok==true on the path", c.pos(instrPos(u.at)))
-				} else if !u.isType && !hasType {
+				} else if !u.isType && !hasType && !typedOK {
 					bad = fmt.Sprintf("entry field used at %s without a dominating type_ == K check", c.pos(instrPos(u.at)))
 				}
 			}
@@ -1253,6 +1260,12 @@ func runR12_5(c *Ctx, r *R) {
 					continue
 				}
 				on := objName(o)
+				if base, ti, isTyped := typedAccessor(cv.Call.StaticCallee()); isTyped && ti < len(cv.Call.Args) {
+					if k, isK := constInt(cv.Call.Args[ti]); isK && extractOf(cv, 1) != nil {
+						got = append(got, base+":"+constName[k])
+						continue
+					}
+				}
 				if on != "stack.pop" && on != "stack.peek" && on != "stack.peekSecondLast" {
 					if cal := cv.Call.StaticCallee(); cal != nil && cal.Blocks != nil && cal.Pkg == f.Pkg && depth < 2 && strings.HasPrefix(on, "writer.") && !token.IsExported(o.Name()) {
 						if _, isTransition := r12_5table[on]; !isTransition {
